@@ -1,1 +1,310 @@
-//! Shared helpers on top of the library: parameter generation, context bundles, oracle decryptor.
+//! Shared helpers on top of the library: parameter specs and generators, a bundle of
+//! library objects for one context ("Kit"), the oracle decryptor (schoolbook arithmetic
+//! with the recovered ternary secret), analytic worst-case noise bounds and the reference
+//! canonical embedding used for CKKS.
+
+use crate::big::{centered, BigI, BigU};
+use crate::refm;
+use crate::rt::{lib, Rng};
+use heathcliff::*;
+use num_complex::Complex;
+use std::sync::Arc;
+
+pub type C64 = Complex<f64>;
+
+// ------------------------------------------------------------------ specs
+#[derive(Clone, Debug)]
+pub struct Spec {
+    pub scheme: SchemeType,
+    pub n: usize,
+    pub qs: Vec<u64>,
+    pub t: u64,
+    pub special_flag: bool, // use_special_prime_for_encryption
+    pub expand: bool,
+    /// generator family name (for coverage tables)
+    pub family: String,
+}
+
+impl Spec {
+    pub fn scheme_name(&self) -> &'static str { scheme_name(self.scheme) }
+    pub fn describe(&self) -> serde_json::Value {
+        serde_json::json!({"scheme": self.scheme_name(), "n": self.n, "qs": self.qs, "t": self.t,
+            "special_flag": self.special_flag, "expand": self.expand, "family": self.family})
+    }
+    pub fn parms(&self) -> EncryptionParameters {
+        let qs: Vec<Modulus> = self.qs.iter().map(|&q| Modulus::new(q)).collect();
+        let mut p = EncryptionParameters::new(self.scheme).set_poly_modulus_degree(self.n).set_coeff_modulus(&qs);
+        if self.scheme != SchemeType::CKKS { p = p.set_plain_modulus(&Modulus::new(self.t)); }
+        p.set_use_special_prime_for_encryption(self.special_flag)
+    }
+    pub fn context(&self) -> Result<Arc<HeContext>, String> {
+        let ctx = lib(|| HeContext::new(self.parms(), self.expand, SecurityLevel::None)).map_err(|p| format!("HeContext::new panicked: {}", p.0))?;
+        if !ctx.parameters_set() {
+            return Err(format!("parameters not set: {:?}", ctx.key_context_data().map(|c| format!("{:?}", c.qualifiers().parameter_error))));
+        }
+        Ok(ctx)
+    }
+}
+
+pub fn scheme_name(s: SchemeType) -> &'static str {
+    match s { SchemeType::BFV => "BFV", SchemeType::BGV => "BGV", SchemeType::CKKS => "CKKS", SchemeType::None => "None" }
+}
+
+/// Primes p ≡ 1 (mod 2n) with exactly `bits` bits; scans downward from 2^bits - 1 skipping
+/// `skip` hits first. Independent of the library's prime generator.
+pub fn ntt_primes(n: usize, bits: u32, count: usize, skip: usize) -> Vec<u64> {
+    let m = 2 * n as u64;
+    let hi = (1u64 << bits) - 1;
+    let lo = 1u64 << (bits - 1);
+    let mut v = hi / m * m + 1;
+    if v > hi { if v < m { return vec![]; } v -= m; }
+    let mut out = vec![]; let mut skipped = 0;
+    while v > lo && out.len() < count {
+        if refm::is_prime(v) { if skipped < skip { skipped += 1; } else { out.push(v); } }
+        if v < m { break; }
+        v -= m;
+    }
+    out
+}
+
+/// Smallest primes ≡ 1 mod 2n at or above 2^(bits-1) (scanning upward).
+pub fn ntt_primes_up(n: usize, bits: u32, count: usize) -> Vec<u64> {
+    let m = 2 * n as u64;
+    let lo = 1u64 << (bits - 1);
+    let hi = (1u64 << bits) - 1;
+    let mut v = (lo + m - 1) / m * m + 1;
+    if v < lo { v += m; }
+    let mut out = vec![];
+    while v <= hi && out.len() < count { if refm::is_prime(v) { out.push(v); } v += m; }
+    out
+}
+
+/// distinct coefficient primes with the given bit sizes (None if not enough exist)
+pub fn coeff_primes(n: usize, bit_sizes: &[u32], rng: &mut Rng) -> Option<Vec<u64>> {
+    let mut used: Vec<u64> = vec![];
+    let mut out = vec![];
+    for &b in bit_sizes {
+        let from_top = rng.bool();
+        let cands = if from_top { ntt_primes(n, b, 6 + used.len(), rng.usize_below(3)) } else { ntt_primes_up(n, b, 6 + used.len()) };
+        let c = cands.into_iter().find(|c| !used.contains(c))?;
+        used.push(c); out.push(c);
+    }
+    Some(out)
+}
+
+// ------------------------------------------------------------------ kit
+pub struct Kit {
+    pub spec: Spec,
+    pub ctx: Arc<HeContext>,
+    pub keygen: KeyGenerator,
+    pub sk: SecretKey,
+    pub pk: PublicKey,
+    pub enc: Encryptor,
+    pub dec: Decryptor,
+    pub eval: Evaluator,
+    /// data levels first..last
+    pub levels: Vec<Arc<ContextData>>,
+    pub batch: Option<BatchEncoder>,
+    pub ckks: Option<CKKSEncoder>,
+}
+
+impl Kit {
+    pub fn new(spec: &Spec) -> Result<Kit, String> {
+        let ctx = spec.context()?;
+        let r = lib(|| {
+            let keygen = KeyGenerator::new(ctx.clone());
+            let sk = keygen.secret_key().clone();
+            let pk = keygen.create_public_key(false);
+            let enc = Encryptor::new(ctx.clone()).set_public_key(pk.clone()).set_secret_key(sk.clone());
+            let dec = Decryptor::new(ctx.clone(), sk.clone());
+            let eval = Evaluator::new(ctx.clone());
+            (keygen, sk, pk, enc, dec, eval)
+        }).map_err(|p| format!("kit construction panicked: {}", p.0))?;
+        let (keygen, sk, pk, enc, dec, eval) = r;
+        let mut levels = vec![];
+        let mut cur = ctx.first_context_data();
+        while let Some(c) = cur { cur = c.next_context_data(); levels.push(c); }
+        let batch = if spec.scheme != SchemeType::CKKS && ctx.first_context_data().unwrap().qualifiers().using_batching {
+            lib(|| BatchEncoder::new(ctx.clone())).ok() } else { None };
+        let ckks = if spec.scheme == SchemeType::CKKS { lib(|| CKKSEncoder::new(ctx.clone())).ok() } else { None };
+        Ok(Kit { spec: spec.clone(), ctx, keygen, sk, pk, enc, dec, eval, levels, batch, ckks })
+    }
+    pub fn n(&self) -> usize { self.spec.n }
+    pub fn t(&self) -> u64 { self.spec.t }
+    pub fn level_of(&self, id: &ParmsID) -> Option<usize> { self.levels.iter().position(|l| l.parms_id() == id) }
+    pub fn level_qs(&self, level: usize) -> Vec<u64> { self.levels[level].parms().coeff_modulus().iter().map(|m| m.value()).collect() }
+    pub fn key_qs(&self) -> Vec<u64> { self.ctx.key_context_data().unwrap().parms().coeff_modulus().iter().map(|m| m.value()).collect() }
+    pub fn has_keyswitching(&self) -> bool { self.ctx.using_keyswitching() }
+    /// plaintext polynomial (coefficient form, BFV/BGV) from coefficients already reduced mod t
+    pub fn plain_from_coeffs(&self, coeffs: &[u64]) -> Plaintext {
+        let mut p = Plaintext::new();
+        p.resize(coeffs.len().max(1));
+        for (i, &c) in coeffs.iter().enumerate() { p.data_mut()[i] = c; }
+        p
+    }
+}
+
+/// plaintext -> full-length coefficient vector (zero padded)
+pub fn plain_coeffs(p: &Plaintext, n: usize) -> Vec<u64> {
+    let mut v = p.data().clone(); v.resize(n, 0); v
+}
+
+// ------------------------------------------------------------------ oracle decryptor
+pub struct Oracle {
+    pub n: usize,
+    /// ternary secret, coefficient form
+    pub s: Vec<i8>,
+}
+
+fn mul_by_ternary(a: &[u64], s: &[i8], q: u64) -> Vec<u64> {
+    let n = a.len();
+    let mut r = vec![0u64; n];
+    for (j, &sj) in s.iter().enumerate() {
+        if sj == 0 { continue; }
+        for i in 0..n {
+            if a[i] == 0 { continue; }
+            let k = i + j;
+            let (idx, flip) = if k < n { (k, false) } else { (k - n, true) };
+            let add = (sj == 1) != flip;
+            r[idx] = if add { refm::addmod(r[idx], a[i], q) } else { refm::submod(r[idx], a[i], q) };
+        }
+    }
+    r
+}
+
+impl Oracle {
+    pub const MAX_N: usize = 1024;
+    /// Recover the ternary secret from the stored key (NTT form at the key level) with the
+    /// reference inverse transform; checks ternarity and consistency across components.
+    pub fn new(ctx: &HeContext, sk: &SecretKey) -> Result<Oracle, String> {
+        let kd = ctx.key_context_data().unwrap();
+        let n = kd.parms().poly_modulus_degree();
+        if n > Self::MAX_N { return Err("degree too large for the oracle decryptor".into()); }
+        let qs: Vec<u64> = kd.parms().coeff_modulus().iter().map(|m| m.value()).collect();
+        let tables = kd.small_ntt_tables();
+        let mut s: Vec<i8> = vec![];
+        for (i, &q) in qs.iter().enumerate() {
+            let comp = &sk.data()[i * n..(i + 1) * n];
+            let c = refm::intt_ref(comp, tables[i].root(), q);
+            let si: Result<Vec<i8>, String> = c.iter().map(|&x| if x == 0 { Ok(0) } else if x == 1 { Ok(1) } else if x == q - 1 { Ok(-1) } else { Err(format!("secret key coefficient {} mod {} is not ternary", x, q)) }).collect();
+            let si = si?;
+            if i == 0 { s = si; } else if s != si { return Err("secret key components disagree".into()); }
+        }
+        Ok(Oracle { n, s })
+    }
+
+    /// per-prime phase [c0 + c1 s + ... ]_{q_i} in coefficient form (component-major)
+    pub fn phase_rns(&self, ctx: &HeContext, ct: &Ciphertext) -> Vec<Vec<u64>> {
+        let cd = ctx.get_context_data(ct.parms_id()).expect("ciphertext level");
+        let qs: Vec<u64> = cd.parms().coeff_modulus().iter().map(|m| m.value()).collect();
+        let tables = cd.small_ntt_tables();
+        let n = self.n;
+        let mut out = vec![];
+        for (i, &q) in qs.iter().enumerate() {
+            let mut acc = vec![0u64; n];
+            for j in (0..ct.size()).rev() {
+                let comp = ct.poly_component(j, i);
+                let c = if ct.is_ntt_form() { refm::intt_ref(comp, tables[i].root(), q) } else { comp.iter().map(|&x| x % q).collect() };
+                // Horner: acc = acc * s + c_j
+                acc = mul_by_ternary(&acc, &self.s, q);
+                acc = refm::poly_add(&acc, &c, q);
+            }
+            out.push(acc);
+        }
+        out
+    }
+
+    /// centered phase as big integers, and the level's modulus product
+    pub fn phase(&self, ctx: &HeContext, ct: &Ciphertext) -> (Vec<BigI>, BigU) {
+        let cd = ctx.get_context_data(ct.parms_id()).expect("ciphertext level");
+        let qs: Vec<u64> = cd.parms().coeff_modulus().iter().map(|m| m.value()).collect();
+        let crt = refm::Crt::new(&qs).expect("coprime");
+        let ph = self.phase_rns(ctx, ct);
+        let v = (0..self.n).map(|j| { let r: Vec<u64> = ph.iter().map(|c| c[j]).collect(); crt.compose_centered(&r) }).collect();
+        (v, crt.big_q)
+    }
+
+    /// BFV: message and the library's notion of invariant noise budget
+    pub fn bfv(&self, ctx: &HeContext, ct: &Ciphertext, t: u64) -> (Vec<u64>, usize, BigU) {
+        let (ph, q) = self.phase(ctx, ct);
+        let mut norm = BigU::zero();
+        let msg = ph.iter().map(|x| {
+            let tx = x.mul_u64(t);
+            let y = centered(&tx.modp(&q), &q).abs();
+            if y > norm { norm = y; }
+            tx.div_round_half_up(&q).mod_u64(t)
+        }).collect();
+        let budget = (q.bits() as isize - norm.bits() as isize - 1).max(0) as usize;
+        (msg, budget, norm)
+    }
+
+    /// BGV: message (correction factor removed) and budget
+    pub fn bgv(&self, ctx: &HeContext, ct: &Ciphertext, t: u64) -> (Vec<u64>, usize, BigU) {
+        let (ph, q) = self.phase(ctx, ct);
+        let finv = refm::invmod(ct.correction_factor() % t, t).unwrap_or(0);
+        let mut norm = BigU::zero();
+        let msg = ph.iter().map(|x| { let a = x.abs(); if a > norm { norm = a; } refm::mulmod(x.mod_u64(t), finv, t) }).collect();
+        let budget = (q.bits() as isize - norm.bits() as isize - 1).max(0) as usize;
+        (msg, budget, norm)
+    }
+
+    /// CKKS: real coefficient vector phase/scale
+    pub fn ckks_coeffs(&self, ctx: &HeContext, ct: &Ciphertext) -> Vec<f64> {
+        let (ph, _) = self.phase(ctx, ct);
+        ph.iter().map(|x| x.to_f64() / ct.scale()).collect()
+    }
+}
+
+// ------------------------------------------------------------------ reference embedding (CKKS)
+/// e_i = 3^i mod 2N
+pub fn slot_exponents(n: usize) -> Vec<usize> {
+    let m = 2 * n; let mut e = vec![]; let mut pos = 1usize;
+    for _ in 0..n / 2 { e.push(pos); pos = (pos * 3) % m; }
+    e
+}
+fn unit_table(n: usize) -> Vec<C64> {
+    // zeta^k, zeta = exp(i*pi/n), k in 0..2n, with exactly reduced angles
+    (0..2 * n).map(|k| { let a = std::f64::consts::PI * (k as f64) / (n as f64); C64::new(a.cos(), a.sin()) }).collect()
+}
+/// slots of the real-coefficient polynomial c: value_i = sum_j c_j zeta^(e_i j)
+pub fn embed_decode(c: &[f64]) -> Vec<C64> {
+    let n = c.len(); let tab = unit_table(n); let e = slot_exponents(n);
+    e.iter().map(|&ei| { let mut acc = C64::new(0.0, 0.0); for j in 0..n { acc += tab[(ei * j) % (2 * n)] * c[j]; } acc }).collect()
+}
+/// real coefficients of the preimage: c_j = (2/N) sum_i Re(v_i * conj(zeta^(e_i j)))   (values zero padded to N/2)
+pub fn embed_encode(values: &[C64], n: usize) -> Vec<f64> {
+    let tab = unit_table(n); let e = slot_exponents(n);
+    (0..n).map(|j| { let mut acc = 0.0; for (i, v) in values.iter().enumerate() { acc += (v * tab[(e[i] * j) % (2 * n)].conj()).re; } acc * 2.0 / n as f64 }).collect()
+}
+
+// ------------------------------------------------------------------ analytic bounds
+/// worst-case |error| of one sampled error polynomial coefficient
+pub const ERR_MAX: f64 = 21.0;
+
+/// worst-case coefficient norm of the fresh noise polynomial e0 + e1*s - e*u (public key) or e (secret key)
+pub fn fresh_noise_bound(n: usize, public_key: bool) -> f64 {
+    if public_key { ERR_MAX * (2.0 * n as f64 + 1.0) } else { ERR_MAX }
+}
+/// additional worst-case noise of one modulus switch (rounding of c0 + c1 s), in units of the new modulus
+pub fn modswitch_bound(n: usize) -> f64 { (n as f64 + 1.0) / 2.0 }
+
+pub fn log2_big(q: &BigU) -> f64 {
+    // log2 with ~53 bits of the leading part
+    let b = q.bits(); if b == 0 { return f64::NEG_INFINITY; }
+    let sh = b.saturating_sub(60);
+    (q.shr(sh).to_f64()).log2() + sh as f64
+}
+
+/// Worst-case double-precision error of the library's CKKS decode path on one slot:
+/// (a) decoding a negative coefficient sums word-wise differences (c_j - q_j) * 2^(64 j) / scale of
+///     magnitude up to 2^(64 (w+1)) / scale, w = top word index of the coefficient magnitude, each
+///     rounded to 53 bits (k+1 terms) -- an artefact of the documented algorithm, so it is part of
+///     the allowed "double-precision" term;
+/// (b) the forward/inverse floating-point transforms: N log N operations of relative error 2^-53 on
+///     values of magnitude <= N * vmax.
+pub fn ckks_fp_tolerance(n: usize, k: usize, vmax: f64, scale: f64) -> f64 {
+    let x = (vmax + 1.0) * scale * 2.0;
+    let w = (x.log2().max(0.0) / 64.0).floor();
+    let per_coeff = (k as f64 + 1.0) * 2f64.powf(64.0 * (w + 1.0) - 52.0) / scale;
+    (n as f64) * per_coeff + (n * n) as f64 * 2f64.powi(-45) * (vmax + 1.0)
+}
